@@ -209,6 +209,9 @@ func (e *evmRun) target(sender *sim.Account) evmTarget {
 		rev := int64(r.Intn(2))
 		data := append(pad32b(nil), pad32b(nil)...)
 		data[31] = byte(1 + r.Intn(200))
+		if r.Intn(3) == 0 {
+			data[31] = 0 // clears the slot: when it held a value the EVM credits a refund
+		}
 		data[63] = byte(rev)
 		to := e.writer
 		return evmTarget{name: fmt.Sprintf("store-writer|revert=%d", rev), to: &to, data: data, payTo: &to}
